@@ -305,7 +305,8 @@ func genC14RA(t *rapid.T, router int) c14RA {
 	if rapid.Bool().Draw(t, "mtu") {
 		ra.MTU = int64(rapid.SampledFrom([]uint32{1500, 1280, 9000, 0, 0xffffffff, 1492}).Draw(t, "mtuv"))
 	}
-	for i := rapid.IntRange(0, 3).Draw(t, "nrdnss"); i > 0; i-- {
+	// 16 servers and more need an option length above 32 units (> 256 bytes)
+	for i := rapid.SampledFrom([]int{0, 1, 2, 3, 0, 1, 2, 3, 15, 16, 17, 40}).Draw(t, "nrdnss"); i > 0; i-- {
 		ra.RDNSS = append(ra.RDNSS, pfx("rdnss"))
 	}
 	ra.RDNSSLife = rapid.SampledFrom([]uint32{0, 600, 0xffffffff, 3}).Draw(t, "rlife")
